@@ -16,8 +16,8 @@ CFG = {
                   "evaluating it (vm_compute) on the implementation's inputs and outputs, and the implementation's "
                   "output is judged by the direct semantics",
     "level_note": "Trusted: Coq kernel + vm_compute; hand-written model tied by differential correspondence only "
-                  "(generator quality bounds it); number text (strconv formatting/parsing, float32 rounding) and "
-                  "white space are parameters of the Coq text layer (Formats/ObjText.v: ScanLines, Fields, dispatch, corner "
+                  "(generator quality bounds it); number text (strconv formatting/parsing, float32 rounding) is a "
+                  "parameter of the Coq text layer (Formats/ObjText.v models ScanLines, Fields, keyword dispatch, corner "
                   "tokens); raw input bytes are evaluated in Coq and must give the statements the Go reader consumed",
     "technique": "Coq proof (induction over line lists / mesh lists, simulation between reader state and direct "
                  "semantics) + vm_compute correspondence check",
